@@ -11,6 +11,7 @@ package main
 
 import (
 	"encoding/json"
+	"sort"
 	"strings"
 )
 
@@ -85,10 +86,40 @@ func (c *roomCtx) applyFault(t tree, f fault) bool {
 		}
 		cur = next
 	}
+	if f.Cls == "collide" { // the event ID of another event of the room (possible where the sender chooses the ID)
+		cur[last] = c.ids["pl"]
+		return true
+	}
+	if f.Kind == "pseudokey" {
+		// a sender "key" of another length, together with a 64 byte signature made under that name
+		n := map[string]int{"key0": 0, "key2": 2, "key31": 31, "key33": 33, "key64": 64}[f.Cls]
+		name := b64(make([]byte, n))
+		if f.Cls == "keyvalid" {
+			name = pseudoID("carol")
+		}
+		cur[last] = name
+		sigs, _ := t["signatures"].(tree)
+		if sigs == nil {
+			sigs = tree{}
+			t["signatures"] = sigs
+		}
+		sigs[name] = tree{"ed25519:1": garbageSig}
+		return true
+	}
 	switch last {
 	case "*key":
 		name := parentSegs[len(parentSegs)-1]
-		raw, absent := classValue(f.Kind, f.Cls, nil)
+		// the well-formed key the class may be derived from: the first key of the map as it is
+		valid := jstr(map[string]string{"userkey": c.sender("alice"), "server": "hs1"}[f.Kind])
+		if m, ok := cur[name].(tree); ok && len(m) > 0 {
+			keys := make([]string, 0, len(m))
+			for k := range m {
+				keys = append(keys, k)
+			}
+			sort.Strings(keys)
+			valid = jstr(keys[0])
+		}
+		raw, absent := classValue(f.Kind, f.Cls, valid)
 		if absent {
 			return false
 		}
@@ -166,6 +197,16 @@ func (c *roomCtx) refsClass(cls string, valid interface{}, selfID string) (inter
 	case "many":
 		ids := make([]string, 0, 30)
 		for i := 0; i < 30; i++ {
+			ids = append(ids, someID)
+		}
+		return c.refs(ids), true
+	case "many_1000":
+		n := 1000
+		if c.fmtV1 {
+			n = 500
+		}
+		ids := make([]string, 0, n)
+		for i := 0; i < n; i++ {
 			ids = append(ids, someID)
 		}
 		return c.refs(ids), true
